@@ -30,7 +30,9 @@ Record visit_ok : Prop := {
   vo_topo : topo (order_visit NW);
   vo_ord : forall n, In n (nodes NW) -> In n (order_visit NW);
   vo_ship : forall n, In n (nodes NW) -> In n (ship_visit NW);
-  vo_nodup : NoDup (nodes NW) }.
+  vo_nodup : NoDup (nodes NW);
+  vo_nd_ord : NoDup (order_visit NW);
+  vo_nd_ship : NoDup (ship_visit NW) }.
 
 Fixpoint topob (l : list N) : bool :=
   match l with [] => true
@@ -38,7 +40,8 @@ Fixpoint topob (l : list N) : bool :=
 Fixpoint nodupb (l : list N) : bool := match l with [] => true | a :: r => negb (memN a r) && nodupb r end.
 Definition visit_okb : bool :=
   topob (order_visit NW) && forallb (fun n => memN n (order_visit NW)) (nodes NW)
-  && forallb (fun n => memN n (ship_visit NW)) (nodes NW) && nodupb (nodes NW).
+  && forallb (fun n => memN n (ship_visit NW)) (nodes NW) && nodupb (nodes NW)
+  && nodupb (order_visit NW) && nodupb (ship_visit NW).
 Lemma topob_sound l : topob l = true -> topo l.
 Proof. induction l as [|p r IH]; cbn [topob]; intros H; [constructor|]. apply andb_true_iff in H. destruct H as [H H3]. apply andb_true_iff in H. destruct H as [H1 H2].
   constructor; [apply memN_false, negb_true_iff; exact H1| |apply IH; exact H3].
@@ -47,8 +50,9 @@ Lemma nodupb_sound l : nodupb l = true -> NoDup l.
 Proof. induction l as [|a r IH]; cbn [nodupb]; intros H; [constructor|]. apply andb_true_iff in H. destruct H as [H1 H2].
   constructor; [apply memN_false, negb_true_iff; exact H1|apply IH; exact H2]. Qed.
 Theorem visit_okb_sound : visit_okb = true -> visit_ok.
-Proof. unfold visit_okb. intros H. apply andb_true_iff in H. destruct H as [H H4]. apply andb_true_iff in H. destruct H as [H H3]. apply andb_true_iff in H. destruct H as [H1 H2].
-  constructor; [apply topob_sound; exact H1| | |apply nodupb_sound; exact H4].
+Proof. unfold visit_okb. intros H. apply andb_true_iff in H. destruct H as [H H6]. apply andb_true_iff in H. destruct H as [H H5].
+  apply andb_true_iff in H. destruct H as [H H4]. apply andb_true_iff in H. destruct H as [H H3]. apply andb_true_iff in H. destruct H as [H1 H2].
+  constructor; [apply topob_sound; exact H1| | |apply nodupb_sound; exact H4|apply nodupb_sound; exact H5|apply nodupb_sound; exact H6].
   - intros n Hn. rewrite forallb_forall in H2. apply memN_In, H2. exact Hn.
   - intros n Hn. rewrite forallb_forall in H3. apply memN_In, H3. exact Hn. Qed.
 
